@@ -125,6 +125,7 @@ int main(int argc, char **argv)
         const char *events = NULL;
         const char *table = "+A:U";
         int verbose = 0;
+        const char *feedhex = NULL, *setvars = NULL;
         for (int i = 1; i < argc; i++) {
                 const char *a = argv[i];
 #define ARG() (i + 1 < argc ? argv[++i] : (mcx_fatal("missing value for %s", a), ""))
@@ -176,6 +177,8 @@ int main(int argc, char **argv)
                 else if (!strcmp(a, "--suffix-mask")) W.gen.suffix_mask = atoi(ARG());
                 else if (!strcmp(a, "--mon")) W.mon = parse_mon(ARG());
                 else if (!strcmp(a, "--line-max")) W.line_max = atoi(ARG());
+                else if (!strcmp(a, "--feed-hex")) feedhex = ARG();
+                else if (!strcmp(a, "--setvars")) setvars = ARG();
                 else if (!strcmp(a, "--liveness")) w_liveness = atoi(ARG());
                 else if (!strcmp(a, "--merge-doomed")) W.merge_doomed = atoi(ARG());
                 else if (!strcmp(a, "--wo-fill")) W.wo_fill = atoi(ARG());
@@ -203,6 +206,30 @@ int main(int argc, char **argv)
         o.tag = tag;
         world_build();
         mcx_verbose = verbose;
+        if (replay && feedhex) replay = NULL;   /* sweep replay files carry the whole case in --feed-hex */
+        if (feedhex) {
+                uint8_t bytes[4096]; int n = 0;
+                for (const char *p = feedhex; p[0] && p[1] && n < (int)sizeof bytes; p += 2) { char h[3] = {p[0], p[1], 0}; bytes[n++] = (uint8_t)strtol(h, NULL, 16); }
+                if (setvars) {
+                        char *d = strdup(setvars), *save = NULL;
+                        for (char *t = strtok_r(d, ",", &save); t; t = strtok_r(NULL, ",", &save)) {
+                                int c, v; char hx[200];
+                                if (sscanf(t, "%d:%d:%199s", &c, &v, hx) != 3) mcx_fatal("bad --setvars");
+                                uint8_t val[64] = {0}; int k = 0;
+                                for (const char *p = hx; p[0] && p[1] && k < 64; p += 2) { char h[3] = {p[0], p[1], 0}; val[k++] = (uint8_t)strtol(h, NULL, 16); }
+                                w_set_var(c, v, val);
+                        }
+                        free(d);
+                }
+                mcx_violation_clear();
+                int calls = world_run_bytes(bytes, n);
+                char a[2048], b[2048];
+                w_esc(a, sizeof a, bytes, n); w_esc(b, sizeof b, (const uint8_t *)w_output(), w_output_len());
+                printf("FEED: %d cat_service calls; input '%s' -> output '%s'\n", calls, a, b);
+                if (mcx_violated()) { printf("REPLAY: violation reproduced: property=%s %s\n", mcx_violation_prop(), mcx_violation_msg()); return 1; }
+                printf("REPLAY: no violation\n");
+                return 0;
+        }
         if (replay) {
                 int r = mcx_replay_file(&world_model, replay, 1);
                 if (r == 1) printf("output so far: %d bytes\n", w_output_len());
